@@ -243,8 +243,13 @@ def buffered(ctx, prog, which):
             e0 = len(ex.events)
             r1 = ex.call(prog.find_impl_method('emit', sink_ty, 'MetricSink'), [Ref(c), Str((Atom('m0', mlen),), 'str')])
             e1 = len(ex.events)
-            mode = ex.nondet(2, 'then')
-            if mode == 0:
+            mode = ex.nondet(4, 'then')
+            e2 = None
+            if mode in (2, 3):
+                # a first flush (which may fail), then a second flush / the drop: whatever is still buffered must be attempted again
+                ex.call(prog.find_impl_method('flush', sink_ty, 'MetricSink'), [Ref(c)])
+                e2 = len(ex.events)
+            if mode in (0, 2):
                 r2 = ex.call(prog.find_impl_method('flush', sink_ty, 'MetricSink'), [Ref(c)])
                 how = 'flush'
             else:
@@ -253,8 +258,9 @@ def buffered(ctx, prog, which):
                 ex.drop_value(v)
                 r2, how = UNIT, 'drop'
             st = None
-            if mode == 0:
+            if mode in (0, 2):
                 st = ex.call(prog.find_impl_method('stats', sink_ty, 'MetricSink'), [Ref(c)])
+            ex.out['e2'] = e2
             return ('ok', r1, e0, e1, r2, how, st)
 
         def on_path(ex, res, status, ctor=ctor):
@@ -301,6 +307,14 @@ def buffered(ctx, prog, which):
             if is_variant(r1, 'Ok') and not any(s[4] == 'ok' for s in in_emit):
                 ctx.oblige(ex, 'C13', 'remainder-sent-on-' + how, len(after) >= 1, 'accepted metric still buffered but %s sent nothing' % how)
                 ctx.oblige(ex, 'C06', 'remainder-sent-on-' + how, len(after) >= 1, 'accepted metric still buffered but %s sent nothing' % how)
+            e2 = ex.out.get('e2')
+            if e2 is not None and is_variant(r1, 'Ok') and not any(s[4] == 'ok' for s in ex.events[e0:e2] if s[0] == 'send_to'):
+                # nothing has been delivered yet (the first flush failed): the second flush / the drop must try again
+                again = [e for e in ex.events[e2:] if e[0] == 'send_to']
+                retry_sc = lambda ex_, neg: {'kind': 'sink', 'sink': 'unix-buffered-retry'}
+                for prop in ('C13', 'C06'):
+                    ctx.oblige(ex, prop, 'remainder-sent-after-failed-flush', len(again) >= 1,
+                               'buffered %s sink: after a failed flush the accepted metric is still buffered but the following %s sent nothing' % (which, how), retry_sc)
             if st is not None:
                 f = st.fields
                 ctx.oblige(ex, 'C14', 'packets', z3.And(f[1].t == okp, f[3].t == errp), 'buffered sink: packet counters do not match the send attempts')
